@@ -8,6 +8,10 @@ CHECKS = {
    text="Seeded search over schedules, configurations and cancel/close fault points of blocked Queue/Deque/Distributor operations; at true quiescence (no task can take a step) no operation may remain blocked whose condition holds, whose context is cancelled or whose container is closed. Sampling, not proof; every failure is a replayable minimised tape.",
    note="Trusts the simulator's model of sync.Mutex/Cond blocking (FIFO cond queue, no spurious wake-ups) and that one-task-at-a-time interleavings at synchronisation-operation granularity cover the behaviours of interest; quota-queue 'free capacity' is judged only at Len()==0.",
    tech=TECH + "; quiescence oracle"),
+ "C14": dict(cat="exploration", ref="§2 C14",
+   text="Seeded schedules of adders/doners, concurrent waiters with their own cancellable contexts, Num readers, reuse over rounds and Launch/DoTimes/Operation.Add/StartGroup families; every history is checked with porcupine against a counter model (a Wait that returned with a live context must linearize at counter 0; a negative Add must panic and change nothing) and at quiescence no waiter may be blocked at counter 0 or with a cancelled context.",
+   note="Histories are capped at 60 operations; a waiter whose context was cancelled by the harness before it returned is treated as legitimately released (conservative).",
+   tech=TECH + "; porcupine linearizability vs counter model + quiescence oracle"),
 }
 NA = [
  ("C16", "dt.List/dt.Stack are single-goroutine data structures: the property quantifies over operation sequences only; there is no schedule, clock, fault or interleaving for a simulator to own (pure model-based testing target)."),
